@@ -264,6 +264,16 @@ def snapshot(model):
     return sd, flags
 
 
+def own_mode_run(torch, model, xs, seed):
+    """output of a copy of the model in the mode (flags) it is in, with a fixed random stream, and the copy's state
+    afterwards (training-mode BatchNorm updates its statistics, Dropout draws a mask)"""
+    mc = copy.deepcopy(model)
+    torch.manual_seed(4242 + seed)
+    with torch.no_grad():
+        y = mc(*xs)
+    return y, {k: v.detach().clone() for k, v in mc.state_dict().items()}
+
+
 def sd_diff(torch, sd0, sd1):
     changed = sorted(k for k in sd0 if k in sd1 and not (sd0[k].shape == sd1[k].shape and sd0[k].dtype == sd1[k].dtype and torch.equal(sd0[k], sd1[k])))
     missing = sorted(k for k in sd0 if k not in sd1)
@@ -343,7 +353,21 @@ def run_case(torch, seed, cfg):
         with torch.no_grad():
             y0 = m(*xs)
         m.train(bool(cfg['train']))
+        flipped = []
+        if cfg.get('mixed'):
+            # a model with MIXED flags (frozen BatchNorm / Dropout, or single modules switched on inside an eval model):
+            # a random subset of the modules below the root is flipped against the root's mode
+            cands = [(n, mod) for n, mod in m.named_modules() if n and n != 'layers']
+            modal = [(n, mod) for n, mod in cands if isinstance(mod, (nn.BatchNorm1d, nn.BatchNorm2d, nn.Dropout))]
+            chosen = [c for c in modal if rng.random() < 0.6] + [c for c in cands if rng.random() < 0.2]
+            if not chosen:
+                chosen = [rng.choice(modal or cands)]
+            for n, mod in chosen:
+                mod.training = not bool(cfg['train'])      # this module only, not its children
+                flipped.append(n)
+        o['flipped'] = sorted(set(flipped))
         sd0, fl0 = snapshot(m)
+        own0 = own_mode_run(torch, m, xs, seed)
         user_mods = dict(m.named_modules())
         leaf_names = [n for n, mod in user_mods.items() if n and not isinstance(mod, (nn.ModuleDict, nn.ModuleList)) and n.startswith('layers.')]
         o['mods'] = module_list(torch, m, method, excl)
@@ -379,6 +403,18 @@ def run_case(torch, seed, cfg):
         ob['user_flags_before'] = fl0
         ob['user_flags_after'] = {n: fl1.get(n) for n in fl0}
         ob['user_root_training_after'] = bool(m.training)
+        own1 = own_mode_run(torch, m, xs, seed)
+        ob['d_user_own_mode'] = maxdiff(torch, own0[0], own1[0])
+        ob['own_mode_state_diff'] = sd_diff(torch, own0[1], {k: v for k, v in own1[1].items() if k in own0[1]})[0]
+        user_ids = {id(mod): n for n, mod in m.named_modules()}
+        bad_seed = []
+        for n, mm in w.seed.named_modules():
+            if not n:
+                continue
+            exp = fl0[user_ids[id(mm)]] if id(mm) in user_ids else bool(cfg['train'])
+            if bool(mm.training) != exp:
+                bad_seed.append(n)
+        ob['seed_sub_unexpected'] = bad_seed
         ch, mi, nw = sd_diff(torch, sd0, sd1)
         ob['sd_changed'], ob['sd_missing'], ob['sd_new'] = ch, mi, nw
         # identity of the user's modules inside the seed
@@ -519,8 +555,11 @@ def oracle(o):
         if not ob.get('export_out_shape_ok', True):
             f.append(('export-output-shape-differs:' + tag, ''))
     if method in ('pit', 'mps'):
-        if ob['wrapper_training'] != ob['found_training'] or ob['seed_training'] != ob['found_training'] or ob['seed_sub_training'] not in ([], [ob['found_training']]):
-            f.append(('mode-not-kept:' + method, 'found training=%s; wrapper %s seed %s seed sub-modules %s' % (ob['found_training'], ob['wrapper_training'], ob['seed_training'], ob['seed_sub_training'])))
+        if ob['wrapper_training'] != ob['found_training'] or ob['seed_training'] != ob['found_training'] or ob['seed_sub_unexpected']:
+            f.append(('mode-not-kept:' + method, 'found training=%s; wrapper %s seed %s; seed sub-modules with another flag than the one found (shared with the user model: its flag, new: the root mode): %s' % (ob['found_training'], ob['wrapper_training'], ob['seed_training'], ob['seed_sub_unexpected'][:6])))
+    if method in ('pit', 'sn') and (not ob['d_user_own_mode'] <= 0.0 or ob['own_mode_state_diff']):
+        f.append(('user-model-own-mode-output-altered:' + tag, 'run in the mode it was handed over in (flags %s), the user model gives another output / updates other statistics than before: max diff %r, state differing after the run %s' % (
+            'mixed: flipped ' + str(o.get('flipped', [])[:4]) if o.get('flipped') else 'uniform', ob['d_user_own_mode'], ob['own_mode_state_diff'][:4])))
     changed = sorted(n for n, v in ob['user_flags_before'].items() if ob['user_flags_after'].get(n) != v)
     if changed:
         f.append(('user-model-mode-altered:' + method, 'the model was handed over with training=%s; afterwards .training differs on %d of its modules, e.g. %s (root .training = %s)' % (
